@@ -198,6 +198,9 @@ pub fn c04_check<const N: usize>(o: &Opts, rep: &mut Report) {
     let mut pending: Vec<(usize, Recipe)> = vec![];
     let sp = {
         let mut cb = |_i: usize, st: &State, act: &Act, tr: &Trans| {
+            if o.shard.0 != 0 {
+                return; // the BFS phase is identical in every shard: judged and counted once
+            }
             account(rep, st, act, tr);
             // garbage must never be touched on any explored transition
             for b in bad_events(tr) {
@@ -211,7 +214,7 @@ pub fn c04_check<const N: usize>(o: &Opts, rep: &mut Report) {
                 pending.push((ix, r.clone()));
             }
         };
-        let mode = if N <= 5 || o.thorough() { KeyMode::Fine } else { KeyMode::Layout };
+        let mode = if N <= 5 || (o.thorough() && N <= 6) { KeyMode::Fine } else { KeyMode::Layout };
         explore_dup::<N>(mode, &Limits::default(), &grow_alphabet, &mut cb, &mut dup)
     };
     let mut rep_sig: HashMap<usize, u64> = HashMap::new();
@@ -271,14 +274,16 @@ pub fn c04_check<const N: usize>(o: &Opts, rep: &mut Report) {
                     continue;
                 }
                 let tr = transition::<N>(&st.recipe, f, &act, None);
-                rep.transitions += 1;
-                rep.evaluations += 1;
-                rep.validated += 1;
+                if fi > 0 || o.shard.0 == 0 {
+                    rep.transitions += 1;
+                    rep.evaluations += 1;
+                    rep.validated += 1;
+                    rep.action(act.name());
+                    rep.count("planted_runs", 1);
+                }
                 if fi > 0 {
                     rep.nontrivial += 1;
                 }
-                rep.action(act.name());
-                rep.count("planted_runs", 1);
                 let oc = outcome(&tr);
                 rep.outcomes.insert(fnv_of(&oc) ^ fnv_of(act.name()));
                 for b in bad_events(&tr) {
@@ -539,7 +544,7 @@ pub fn c07_check<const N: usize>(o: &Opts, rep: &mut Report) {
     // writes through every mutable accessor are transitions of the BFS itself
     let sp = {
         let mut cb = |_i: usize, st: &State, act: &Act, tr: &Trans| {
-            if matches!(act, Act::WriteVia(..) | Act::MakeContiguous | Act::DrainDebug(..)) {
+            if o.shard.0 == 0 && matches!(act, Act::WriteVia(..) | Act::MakeContiguous | Act::DrainDebug(..)) {
                 account(rep, st, act, tr);
                 for p in &tr.problems {
                     if matches!(p.kind, PKind::Trace | PKind::Contents | PKind::Views | PKind::PanicMismatch | PKind::Duplicate | PKind::DeadReachable) {
@@ -946,14 +951,18 @@ pub fn c09_check<const N: usize>(o: &Opts, rep: &mut Report) {
         for a in 0..=st.len {
             for b in a..=st.len {
                 for (k, rs) in shapes_of(a, b, st.len).into_iter().enumerate() {
-                    let scripts: Vec<Script> = if k == 0 {
-                        Script::all_up_to(b - a + 1).collect()
+                    let scripts: Vec<Script> = if k == 0 && N <= 8 {
+                        Script::all_up_to(b - a + 1)
+                    } else if k == 0 {
+                        let mut v = Script::all_up_to((b - a).min(4));
+                        v.extend([Script::all_front(b - a + 1), Script::all_back(b - a + 1), Script::alternating(b - a + 1, 0), Script::alternating(b - a + 1, 1)]);
+                        v
                     } else {
                         vec![Script::empty(), Script::all_front(b - a + 1), Script::all_back(b - a + 1)]
                     };
                     let mut acts: Vec<Act> = scripts.iter().map(|s| Act::Drain(rs, *s, Fin::Drop)).collect();
                     if k == 0 {
-                        acts.extend(Script::all_up_to(b - a).map(|s| Act::DrainDebug(rs, s)));
+                        acts.extend(Script::all_up_to((b - a).min(if N > 8 { 3 } else { usize::MAX })).into_iter().map(|s| Act::DrainDebug(rs, s)));
                     }
                     for act in acts {
                         let s = match act {
@@ -990,7 +999,9 @@ pub fn c09_check<const N: usize>(o: &Opts, rep: &mut Report) {
 
 pub fn c12_check<const N: usize>(o: &Opts, rep: &mut Report) {
     rep.notes.push(format!("N={} {}", N, calib::<N>().note));
-    ctor_checks::<N>("C12", rep);
+    if o.shard.0 == 0 {
+        ctor_checks::<N>("C12", rep);
+    }
     let sp = layout_space::<N>();
     let kinds = [PKind::Trace, PKind::Contents, PKind::Views, PKind::PanicMismatch, PKind::BadEvent, PKind::Leak, PKind::DeadReachable, PKind::Duplicate];
     for (i, st) in sp.states.iter().enumerate() {
